@@ -30,6 +30,14 @@ CHECKS = {
          "Held on every explored call: every call with arbitrary live arguments runs under catch_unwind; around every refused call a snapshot of every live node's value and relations and every root's serialisation is compared; exhaustive over the small-state catalogue (all node pairs incl. illegal ones) plus >=6*10^4 random histories; exploration, not proof.",
          "Handle-less unreachable nodes left by a refused create-and-append call are not observable and not judged; documented panics of the element-only accessors are allowed.",
          "before/after snapshot oracle + panic attribution"),
+ "C07": ("DESIGN.md §5 C07",
+         "Held on every explored tree and start node: every traversal entry point and all 12 axes are compared, for every node incl. attribute and namespace nodes, with lists computed from handles recorded at creation; exhaustive over all 65 ordered shapes with <= 6 nodes x kinds x decorations, plus random trees, deep chains, wide fans and re-parsed trees; exploration, not proof.",
+         "Iterators are consumed with a bound (2n+8); for attribute/namespace start nodes only the entry points whose meaning the statement fixes are judged.",
+         "ground-truth comparison of every iterator (bounded consumption)"),
+ "C11": ("DESIGN.md §5 C11",
+         "Held on every explored update history: after every one of 1-40 map-style / node-style updates every accessor of the read-only and the mutable view of the attribute and namespace maps of two sibling elements is compared with an ordered-map model, return values included, and the serialised start tags are read back by an independent XML reader; exploration, not proof.",
+         "Key pools of 4 names / 4 prefixes; histories <= 40 steps.",
+         "reference-model monitor (ordered map) after every step"),
  "C01": ("DESIGN.md §5 C01",
          "Held on every explored tree: >=10^5 (quick) / >=3*10^6 (thorough) abstract documents and fragments from a hostile generator are realised through the creation API, parsing and manipulation histories, serialised, reparsed and compared by an independent read-back; exploration, not proof.",
          "Trusts the harness's own read-back and tree equality; trees <= 40 nodes, depth <= 8, hostile but finite alphabet.",
